@@ -152,6 +152,7 @@ func runC15(c *engine.Ctx) {
 	// ---- R8 one list per method; R9 the close notification reaches every plugin ----
 	checkOwnList(c, mgr, handleObj)
 	checkCloseNotifiesAll(c, handleObj)
+	checkAllPluginsRegistered(c)
 
 	// ---- R3 transport fails closed ----
 	c.Rule("R3", "httpPlugin.do returns nil only as json.Unmarshal's result on a path with StatusCode==200; httpPlugin.Handle returns a non-nil error whenever do did")
@@ -923,6 +924,83 @@ func checkCloseNotifiesAll(c *engine.Ctx, handleObj *types.Func) {
 				}
 				return ""
 			}}, "return only after the list is exhausted")
+	}
+	c.Floor(n, 1)
+}
+
+// checkAllPluginsRegistered (R10): the gates consult "every plugin registered for the operation"; that means every plugin
+// the operator configured only if each configured entry is registered. In the loop over the configured http plugins every
+// iteration must reach Manager.Register (no entry is skipped).
+func checkAllPluginsRegistered(c *engine.Ctx) {
+	c.Rule("R10", "the start-up loop over ServerConfig.HTTPPlugins reaches Manager.Register in every iteration (no configured plugin is skipped)")
+	reg := method(c, "pkg/plugin/server", "Manager", "Register")
+	plF := field(c, "pkg/config/v1", "ServerConfig", "HTTPPlugins")
+	if reg == nil || plF == nil {
+		return
+	}
+	n := 0
+	for _, f := range c.P.RepoFuncs() {
+		if f.Pkg == nil || !strings.HasSuffix(f.Pkg.Pkg.Path(), "/server") {
+			continue
+		}
+		for _, rc := range engine.CallsTo(f, reg) {
+			h := engine.LoopHeader(rc.Block())
+			if h == nil {
+				continue
+			}
+			// the loop ranges over the configured plugins
+			ranged := false
+			for _, b := range f.Blocks {
+				for _, in := range b.Instrs {
+					switch x := in.(type) {
+					case *ssa.Range:
+						if engine.Provenance(x.X, engine.ProvOpts{}).HasField(plF) {
+							ranged = true
+						}
+					case *ssa.IndexAddr:
+						if engine.Provenance(x.X, engine.ProvOpts{}).HasField(plF) {
+							ranged = true
+						}
+					case *ssa.Index:
+						if engine.Provenance(x.X, engine.ProvOpts{}).HasField(plF) {
+							ranged = true
+						}
+					}
+				}
+			}
+			if !ranged {
+				continue
+			}
+			n++
+			// from the loop head, the next visit of the loop head is preceded by Register (unless the loop ends)
+			hdr := h.Instrs[len(h.Instrs)-1]
+			first := true
+			c.AllPaths(c.P.FuncName(f)+">registers-each", engine.PathCheck{Fn: f, From: hdr, KeepLoopFacts: true,
+				Sink: func(in ssa.Instruction) bool {
+					if in == hdr {
+						if first { // the starting visit itself
+							first = false
+						}
+						return true
+					}
+					return engine.IsReturn(in)
+				},
+				Event: func(in ssa.Instruction) string {
+					if in == ssa.Instruction(rc) {
+						return "register"
+					}
+					return ""
+				},
+				Pred: func(st *engine.PathState) string {
+					if _, isRet := st.Sink.(*ssa.Return); isRet {
+						return ""
+					}
+					if !st.HasEvent("register") {
+						return "an iteration over the configured plugins ends without registering the entry: that plugin is never consulted"
+					}
+					return ""
+				}}, "every configured plugin is registered")
+		}
 	}
 	c.Floor(n, 1)
 }
